@@ -1,5 +1,5 @@
 (* C05 — property theorems only. *)
-Require Import V.Lib V.C05_Model V.C05_Proofs V.C05_RetryProofs V.C05_RRProofs.
+Require Import V.Lib V.C05_Model V.C05_Proofs V.C05_RetryProofs V.C05_RRProofs V.C05_ConcProofs.
 Open Scope N_scope.
 
 (* soundness: no policy ever returns an unavailable backend *)
@@ -309,3 +309,65 @@ Example C05_round_robin_counts_nonvacuous :
   seg 3 (rr_start 3 4294967293) 6 = [2; 0; 1; 2; 0; 1]%nat /\
   cnt 0 (seg 3 (rr_start 3 4294967293) 6) = 2%nat /\ cnt 1 (seg 3 (rr_start 3 4294967293) 6) = 2%nat.
 Proof. exact rr_counts_wrap. Qed.
+
+(* ================= several round_robin blocks: one counter per block ================= *)
+
+(* Every parsed proxy block with `policy round_robin` has its own RoundRobin value.  For EVERY set of
+   blocks (availability of their hosts), every counter state and EVERY interleaving of requests over
+   the blocks: the hosts block b's requests reach, in order, are exactly those of b served alone from
+   its own counter, m = number of b's requests - whatever the other blocks received in between. *)
+Theorem C05_round_robin_counter_per_block : forall sched avs st b, (b < length st)%nat ->
+  proj b sched (rrb_run avs st sched) = rrs_run (nth b avs []) (nth b st 0) (count_nat b sched).
+Proof. exact rrb_proj. Qed.
+Print Assumptions C05_round_robin_counter_per_block.
+
+(* ... hence "round_robin visits available backends evenly" holds PER BLOCK: a block of n >= 2 hosts,
+   all up, that received k*n of the requests of any interleaving sent exactly k of them to each host *)
+Theorem C05_round_robin_even_per_block : forall avs st sched b k j,
+  (b < length st)%nat -> (2 <= length (nth b avs []))%nat -> N.of_nat (length (nth b avs [])) < U32 ->
+  forallb (fun x : bool => x) (nth b avs []) = true ->
+  count_nat b sched = (k * length (nth b avs []))%nat -> (j < length (nth b avs []))%nat ->
+  exists l, proj b sched (rrb_run avs st sched) = map Some l /\ cnt j l = k.
+Proof. exact rr_even_per_block. Qed.
+Print Assumptions C05_round_robin_even_per_block.
+
+(* two blocks of two hosts served alternately: each block alternates between its hosts; with ONE counter
+   shared by the blocks, block 0 would only ever reach its host 1 and block 1 its host 0 (and the
+   per-block clause of the executable spec rejects that) *)
+Example C05_round_robin_counter_per_block_nonvacuous :
+  let avs := [[true; true]; [true; true]] in
+  let sched := [0; 1; 0; 1; 0; 1; 0; 1]%nat in
+  proj 0 sched (rrb_run avs [0; 0] sched) = [Some 1; Some 0; Some 1; Some 0]%nat /\
+  proj 1 sched (rrb_run avs [0; 0] sched) = [Some 1; Some 0; Some 1; Some 0]%nat /\
+  proj 0 sched (rrb_run_shared avs 0 sched) = [Some 1; Some 1; Some 1; Some 1]%nat /\
+  proj 1 sched (rrb_run_shared avs 0 sched) = [Some 0; Some 0; Some 0; Some 0]%nat /\
+  block_fair [true; true] (proj 0 sched (rrb_run avs [0; 0] sched)) = true /\
+  block_fair [true; true] (proj 0 sched (rrb_run_shared avs 0 sched)) = false.
+Proof. exact rr_shared_counter_starves. Qed.
+
+(* ================= the BYTES of the buffered body vs the shared buffer pool ================= *)
+
+(* Memory model of body.go and bufferPool: the buffered body lives in a block of its own (ReadAll),
+   Close is a no-op, every attempt rewinds and reads that block.  For EVERY initial memory (any pool
+   contents, any blocks held by other goroutines), EVERY body and EVERY interleaving of our attempts
+   with the other goroutines' Get / write / Put on the pool (relayed responses, websocket buffers):
+   every attempt reads exactly the original body bytes. *)
+Theorem C05_retry_body_bytes_survive_other_traffic : forall m body evs, mem_wf m ->
+  mrun false (new_body m body) evs = repeat body (length (filter is_attempt evs)).
+Proof. exact retry_body_bytes_survive. Qed.
+Print Assumptions C05_retry_body_bytes_survive_other_traffic.
+
+(* non-vacuous (the empty memory is well-formed), and what the theorem excludes: with a Close that
+   hands the body's block to the pool, a write through the pool between the failed attempt and the
+   retry is what the retry sends (right length, another request's bytes) *)
+Example C05_retry_body_bytes_nonvacuous :
+  mem_wf (mk_mem [] [] []) /\
+  let evs := [MAttempt; MGet 0; MWrite 0 [9; 9]; MPut 0; MAttempt] in
+  mrun false (new_body (mk_mem [] [] []) [1; 2; 3]) evs = [[1; 2; 3]; [1; 2; 3]] /\
+  mrun true (new_body (mk_mem [] [] []) [1; 2; 3]) evs = [[1; 2; 3]; [9; 9; 3]].
+Proof. exact retry_body_bytes_witness. Qed.
+
+(* the observation format of the concurrent cases recognises a request's own pattern body *)
+Theorem C05_own_bytes_of_pattern : forall salt len, own_bytes (desc_of_pat salt len) salt len = true.
+Proof. exact own_bytes_desc. Qed.
+Print Assumptions C05_own_bytes_of_pattern.
